@@ -250,10 +250,39 @@ def run(repo, tier) -> Result:
     rc = repo.func("hexital.utils.candles", "reading_count")
     tests = [n for n in ast.walk(rc.node) if isinstance(n, ast.Compare) and isinstance(n.ops[0], ast.Is)]
     revs = [c for c in calls_in(rc.node) if call_name(c) == "reversed"]
-    if tests and revs:
+    # exactly two exits: the running count at the first missing reading (inside the newest-first scan) and len(candles) after it
+    loops = [n for n in rc.node.body if isinstance(n, ast.For)]
+    all_rets = [n for n in ast.walk(rc.node) if isinstance(n, ast.Return)]
+    shape = False
+    if len(loops) == 1 and len(all_rets) == 2 and isinstance(loops[0].target, ast.Tuple) and isinstance(loops[0].iter, ast.Call) and call_name(loops[0].iter) == "enumerate":
+        counter = ast.unparse(loops[0].target.elts[0])
+        inner = [r for r in all_rets if r in list(ast.walk(loops[0]))]
+        last = rc.node.body[-1]
+        shape = len(inner) == 1 and ast.unparse(inner[0].value) == counter and isinstance(last, ast.Return) and ast.unparse(last.value).replace(" ", "") == f"len({rc.params[0]})" and rc.node.body.index(loops[0]) == len(rc.node.body) - 2 and all(not isinstance(x, (ast.If, ast.Return)) for x in rc.node.body[: rc.node.body.index(loops[0])])
+    if tests and revs and shape:
         res.ok("R-CONTRACT", {"helper": "reading_count", "why": "counts trailing candles until the first `is None`"}, nontrivial="reading_count")
     else:
         res.fail("R-CONTRACT", finding("C20", "R-CONTRACT", rc, rc.node, "reading_count no longer counts trailing candles up to the first missing reading", construct="reading_count: reversed scan, is None"))
+    # Hexital.reading finds the reading wherever its indicator's candles live: default manager first, then every manager
+    hr = repo.method("hexital.core.hexital", "Hexital", "reading")
+    rbi_calls = [c for c in calls_in(hr.node) if call_name(c) == "reading_by_index"]
+    loops = [n for n in hr.node.body if isinstance(n, ast.For) and ast.unparse(n.iter) == "self._candles.values()"]
+    ok = False
+    if loops and len(rbi_calls) >= 1:
+        lv = ast.unparse(loops[0].target)
+        in_loop = [c for c in rbi_calls if c in list(ast.walk(loops[0]))]
+        def _args_ok(c, lst):
+            a = [ast.unparse(x) for x in c.args] + [f"{k.arg}={ast.unparse(k.value)}" for k in c.keywords]
+            return a[:2] == [lst, "name"] and ("index=index" in a or (len(a) > 2 and a[2] == "index"))
+        ok = len(in_loop) == 1 and _args_ok(in_loop[0], f"{lv}.candles") and all(_args_ok(c, f"{lv}.candles") or _args_ok(c, "self._candles[DEFAULT_CANDLES].candles") for c in rbi_calls)
+        rets = [n for n in ast.walk(hr.node) if isinstance(n, ast.Return)]
+        ok = ok and all(isinstance(r.value, ast.Name) or (isinstance(r.value, ast.Constant) and r.value.value is None) for r in rets)
+        early = [n for n in hr.node.body if isinstance(n, ast.If) and any(isinstance(x, ast.Return) for x in ast.walk(n)) and "is not None" not in ast.unparse(n.test)]
+        ok = ok and not early
+    if ok:
+        res.ok("R-SEARCH", {"site": hr.where, "why": "looks the name up on every candle manager (default first) with the caller's index and returns the first reading that is not None"}, nontrivial="Hexital.reading")
+    else:
+        res.fail("R-SEARCH", finding("C20", "R-SEARCH", hr, hr.node, "Hexital.reading must look the name up on every candle manager (for ... in self._candles.values(): reading_by_index(manager.candles, name, index=index)) and return the first non-None reading; a lookup through derived manager keys can miss the indicator's own candles", construct="Hexital.reading: search over managers"))
     # prev_reading offsets
     hp = repo.method("hexital.core.hexital", "Hexital", "prev_reading")
     c = [x for x in calls_in(hp.node) if call_target(x) == "self.reading"]
